@@ -1,6 +1,7 @@
 package c_transport
 
 import (
+	"errors"
 	"fmt"
 	"io"
 	"net"
@@ -329,7 +330,11 @@ type seqEnd struct {
 	// onRead, if set, runs before every Read (used to let a scripted server
 	// answer once the client starts reading).
 	onRead func()
+	// refuse: every Write fails with nothing written (expired write deadline)
+	refuse bool
 }
+
+var errWriteRefused = errors.New("harness: write deadline expired, 0 bytes written")
 
 func (e *seqEnd) Read(p []byte) (int, error) {
 	if e.onRead != nil {
@@ -338,6 +343,9 @@ func (e *seqEnd) Read(p []byte) (int, error) {
 	return e.r.read(p)
 }
 func (e *seqEnd) Write(p []byte) (int, error) {
+	if e.refuse {
+		return 0, errWriteRefused
+	}
 	e.w.buf = append(e.w.buf, p...)
 	return len(p), nil
 }
